@@ -5,7 +5,23 @@ package harness
 import (
 	"fmt"
 	"strings"
+
+	"github.com/evanw/esbuild/pkg/verifsim"
 )
+
+func globFile(dir, k int) string {
+	if dir == 0 {
+		return fmt.Sprintf("src/pages/p%d.js", k)
+	}
+	return fmt.Sprintf("src/parts/q%d.json", k)
+}
+
+func globContent(dir, k, step int) string {
+	if dir == 0 {
+		return fmt.Sprintf("console.log(\"PAGE%d@%d\");\nexport default %d;\n", k, step, k)
+	}
+	return fmt.Sprintf("{\"part\": %d, \"step\": %d}", k, step)
+}
 
 func init() { scenarios["C09"] = scenarioC09 }
 
@@ -25,6 +41,47 @@ func scenarioC09(rc *RunCtx) *Violation {
 	cfg := HistCfg{Steps: 2 + g.n(7), Watch: g.n(2) == 1, InPlace: g.n(2) == 1, EditsPerStep: 3}
 	if rc.Tier == "thorough" {
 		cfg.Steps += g.n(8)
+	}
+	// glob profile: an entry point whose import()/require() paths are patterns, so the
+	// build enumerates whole directories (which may be missing or empty at first); files
+	// then appear in and vanish from those directories
+	glob := g.n(4) == 0
+	if glob {
+		o.Bundle = true
+		p.Extra["src/globber.js"] = "console.log(\"GLOBBER\");\nexport const load = (n) => import(\"./pages/\" + n + \".js\");\nexport const part = (n) => require(\"./parts/\" + n + \".json\");\n"
+		p.ExtraEntries = append(p.ExtraEntries, "src/globber.js")
+		dirs := []string{"src/pages", "src/parts"}
+		for i, dir := range dirs {
+			switch g.n(3) {
+			case 0: // missing
+			case 1:
+				d.MkdirAll(p.Root + "/" + dir) // present and empty
+			case 2:
+				p.Extra[globFile(i, 0)] = globContent(i, 0, 0)
+			}
+		}
+		cfg.ExtraEdit = func(step int, pp *Project, dd *verifsim.Disk) string {
+			if g.n(2) == 0 {
+				return ""
+			}
+			i, k := g.n(2), g.n(3)
+			f := globFile(i, k)
+			if _, ok := pp.Extra[f]; ok && !pp.ExtraDel[f] {
+				pp.ExtraDel[f] = true
+				dd.RemoveAll(pp.Root + "/" + f)
+				what := "remove " + f
+				if g.n(2) == 0 {
+					dd.PruneEmptyDirs(pp.Root+"/"+f, pp.Root+"/src")
+					what += " (pruning an emptied directory)"
+				}
+				return what
+			}
+			pp.Extra[f] = globContent(i, k, step)
+			delete(pp.ExtraDel, f)
+			pp.WriteTo(dd, cfg.InPlace)
+			return "add " + f
+		}
+		rc.Probe("glob_profile")
 	}
 	p.WriteTo(d, false)
 	rc.Note(fmt.Sprintf("proj:%x gran:%d watch:%v inplace:%v", fnv64(fmt.Sprint(describeProject(p, o))), d.Gran, cfg.Watch, cfg.InPlace))
